@@ -12,6 +12,7 @@ package handler
 // identical downstream behaviour => identical report, whatever earlier requests did.
 
 import (
+	"context"
 	"fmt"
 	"io"
 	"log"
@@ -19,6 +20,7 @@ import (
 	"net/http/httptest"
 	"sync/atomic"
 	"testing"
+	"time"
 
 	"github.com/gotid/god/lib/load"
 	"github.com/gotid/god/lib/logx"
@@ -60,9 +62,39 @@ func (p *c09ScriptPromise) Fail() {
 
 var c09Behaviours = []string{"write-200", "implicit-200", "nothing", "404", "500", "503", "503-then-body", "http.Error-503", "panic-before", "panic-after-503", "panic-after-200", "200-then-503"}
 
-func c09Next(kind string, served *int64) http.Handler {
+// c09CtxKinds: state of the request context (client hung up / deadline expired).
+var c09CtxKinds = []string{"live", "live", "live", "cancelled-on-arrival", "cancelled-mid-request", "cancelled-after-response", "deadline-expired-on-arrival", "deadline-cancelled-mid-request"}
+
+// c09Ctx builds the request context; mid runs at the start of the downstream
+// handler, after runs at its end (just before it returns or panics).
+func c09Ctx(kind string) (ctx context.Context, mid, after func(), cleanup func()) {
+	nop := func() {}
+	switch kind {
+	case "cancelled-on-arrival":
+		c, cancel := context.WithCancel(context.Background())
+		cancel()
+		return c, nop, nop, nop
+	case "cancelled-mid-request":
+		c, cancel := context.WithCancel(context.Background())
+		return c, cancel, nop, cancel
+	case "cancelled-after-response":
+		c, cancel := context.WithCancel(context.Background())
+		return c, nop, cancel, cancel
+	case "deadline-expired-on-arrival":
+		c, cancel := context.WithDeadline(context.Background(), time.Unix(1, 0))
+		return c, nop, nop, cancel
+	case "deadline-cancelled-mid-request":
+		c, cancel := context.WithTimeout(context.Background(), time.Hour)
+		return c, cancel, nop, cancel
+	}
+	return context.Background(), nop, nop, nop
+}
+
+func c09Next(kind string, served *int64, mid, after func()) http.Handler {
 	return http.HandlerFunc(func(w http.ResponseWriter, r *http.Request) {
 		atomic.AddInt64(served, 1)
+		mid()
+		defer after()
 		switch kind {
 		case "write-200":
 			w.WriteHeader(http.StatusOK)
@@ -97,7 +129,7 @@ func c09Next(kind string, served *int64) http.Handler {
 }
 
 func TestVerifC09SheddingHandler(t *testing.T) {
-	m := vk.New(t, "C09", "seeded request sequences through SheddingHandler with a scripted Shedder (admit/reject) and 12 downstream behaviours (status codes incl. 503, implicit 200, nothing written, panics before/after the header); per request: Allow once; rejected => downstream not run, no promise call; admitted => downstream run once and exactly one of Pass/Fail reported when ServeHTTP returns or panics")
+	m := vk.New(t, "C09", "seeded request sequences through SheddingHandler with a scripted Shedder (admit/reject) and 12 downstream behaviours (status codes incl. 503, implicit 200, nothing written, panics before/after the header) x 6 request-context states (live, cancelled on arrival / mid-request / after the response, deadline expired, deadline context cancelled mid-request); per request: Allow once; rejected => downstream not run, no promise call; admitted => downstream run once and exactly one of Pass/Fail reported when ServeHTTP returns or panics")
 	defer m.Done()
 	log.SetOutput(io.Discard)
 	logx.Disable()
@@ -111,7 +143,7 @@ func TestVerifC09SheddingHandler(t *testing.T) {
 	// nil shedder: the middleware must be a pass-through
 	{
 		var served int64
-		h := SheddingHandler(nil, metrics)(c09Next("write-200", &served))
+		h := SheddingHandler(nil, metrics)(c09Next("write-200", &served, func() {}, func() {}))
 		rec := httptest.NewRecorder()
 		h.ServeHTTP(rec, httptest.NewRequest(http.MethodGet, "http://localhost/x", http.NoBody))
 		if served != 1 {
@@ -125,14 +157,18 @@ func TestVerifC09SheddingHandler(t *testing.T) {
 		if !m.Only(idx) {
 			continue
 		}
-		desc := fmt.Sprintf("case=%d;{\"admit\":%v,\"downstream\":%q}", idx, admit, kind)
+		ctxKind := c09CtxKinds[r.Intn(len(c09CtxKinds))]
+		class := kind + "/ctx-" + ctxKind
+		desc := fmt.Sprintf("case=%d;{\"admit\":%v,\"downstream\":%q,\"request_context\":%q}", idx, admit, kind, ctxKind)
+		ctx, mid, after, cleanup := c09Ctx(ctxKind)
 		sh := &c09ScriptShedder{admit: admit}
 		var served int64
-		h := SheddingHandler(sh, metrics)(c09Next(kind, &served))
+		h := SheddingHandler(sh, metrics)(c09Next(kind, &served, mid, after))
 		rec := httptest.NewRecorder()
 		_, panicked := vk.Recover(func() {
-			h.ServeHTTP(rec, httptest.NewRequest(http.MethodGet, "http://localhost/x", http.NoBody))
+			h.ServeHTTP(rec, httptest.NewRequest(http.MethodGet, "http://localhost/x", http.NoBody).WithContext(ctx))
 		})
+		cleanup()
 		if panicked {
 			panics++
 		}
@@ -155,7 +191,7 @@ func TestVerifC09SheddingHandler(t *testing.T) {
 				bad = true
 			}
 			if sh.passes+sh.fails != 1 || sh.dup != 0 {
-				m.Violate("C09:http:promise-not-reported-exactly-once", desc, "admitted request (downstream %s, panicked=%v): Pass=%d Fail=%d duplicate reports=%d", kind, panicked, sh.passes, sh.fails, sh.dup)
+				m.Violate("C09:http:promise-not-reported-exactly-once", desc, "admitted request (downstream %s, panicked=%v): Pass=%d Fail=%d duplicate reports=%d", class, panicked, sh.passes, sh.fails, sh.dup)
 				bad = true
 			}
 			out := "pass"
@@ -163,16 +199,17 @@ func TestVerifC09SheddingHandler(t *testing.T) {
 				out = "fail"
 			}
 			mapping[fmt.Sprintf("admitted_%s_%s", kind, out)]++
+			mapping[fmt.Sprintf("admitted_ctx-%s_%s", ctxKind, out)]++
 			// the report must be a function of the request's own outcome: the same
 			// downstream behaviour may not be reported differently depending on earlier requests
-			if first, seen := verdict[kind]; !seen {
-				verdict[kind] = out
+			if first, seen := verdict[class]; !seen {
+				verdict[class] = out
 			} else if first != out && sh.passes+sh.fails == 1 {
-				m.Violate("C09:http:report-depends-on-earlier-request", desc, "downstream behaviour %s was reported as %s by earlier identical requests and as %s now (previous request: %s)", kind, first, out, prev)
+				m.Violate("C09:http:report-depends-on-earlier-request", desc, "downstream behaviour %s was reported as %s by earlier identical requests and as %s now (previous request: %s)", class, first, out, prev)
 				bad = true
 			}
 		}
-		m.Case(vk.Digest(admit, kind), !bad)
+		m.Case(vk.Digest(admit, class), !bad)
 		prev = desc
 		if m.WantSample() && idx%7 == 1 {
 			m.Sample(map[string]any{"scenario": desc, "allow_calls": sh.allows, "downstream_runs": served, "pass": sh.passes, "fail": sh.fails, "status": rec.Code, "panicked": panicked})
